@@ -748,8 +748,19 @@ pub fn gen_conc(seed: u64, ncases: u64, scheds_per_prog: u64, out: &Sink) {
                         format!("add~{}", show_order(&o))
                     }
                     20..=49 => format!("match~{}~{}", r.range(1, 25), show_id(&pool_id(900 + r.below(3)))),
-                    50..=69 => format!("cancel~{}", show_id(&target)),
-                    70..=87 => format!("amend~{}~{}", show_id(&target), r.range(0, 14)),
+                    // removal: a cancel, or any of the three price-bearing updates with another price
+                    50..=69 => match r.below(6) {
+                        0 => format!("mv.price~{}~{}", show_id(&target), price + 1 + r.below(3)),
+                        1 => format!("mv.pq~{}~{}~{}", show_id(&target), price + 1, r.range(1, 9)),
+                        2 => format!("mv.replace~{}~{}~{}~{}", show_id(&target), price - 1, r.range(1, 9), show_side(if r.chance(1, 2) { Side::Buy } else { Side::Sell })),
+                        _ => format!("cancel~{}", show_id(&target)),
+                    },
+                    // same-price quantity amendment, directly or through the two other kinds at the level's own price
+                    70..=87 => match r.below(5) {
+                        0 => format!("same.pq~{}~{}", show_id(&target), r.range(0, 14)),
+                        1 => format!("same.replace~{}~{}~{}", show_id(&target), r.range(0, 14), show_side(if r.chance(1, 2) { Side::Buy } else { Side::Sell })),
+                        _ => format!("amend~{}~{}", show_id(&target), r.range(0, 14)),
+                    },
                     88..=95 => format!("read~{}", r.pick(&["vis", "hid", "cnt", "list"])),
                     _ => "next".to_string(),
                 });
@@ -797,8 +808,9 @@ pub fn gen_conc(seed: u64, ncases: u64, scheds_per_prog: u64, out: &Sink) {
 /// (six shapes: Standard; Iceberg with hidden >= display, with hidden < display, with display 0; auto-replenishing
 /// Reserve whose tranche equals its display; manual Reserve), alone or with a Standard order behind it; thread 0
 /// issues one of seven calls (add Standard / add Iceberg / amend X up, to the same value, down, to 0 / cancel X),
-/// thread 1 one of seven (match 1, match exactly X's display, match 100, cancel X, amend X, list, add Iceberg) and
-/// thread 0 may also match; a seventh target shape is the Standard order amended beforehand (two tickets) - 784 programs.
+/// thread 1 one of nine (match 1, match exactly X's display, match 100, cancel X, amend X, list, add Iceberg, move X to
+/// another price, replace X at the level's price) and
+/// thread 0 may also match; a seventh target shape is the Standard order amended beforehand (two tickets) - 1008 programs.
 /// Each runs under every schedule with at most two context switches from a grid: thread 0 runs k steps, thread 1 runs
 /// m steps, thread 0 finishes, thread 1 finishes. quick / search: `nprogs` programs drawn without replacement, k in
 /// 0..=7, m in {1..6, 8, 10, 12, 14, 16, 40}; thorough: the shard's slice of all programs, k in 0..=8, m in 0..=16 and 40.
@@ -842,6 +854,8 @@ pub fn gen_concx(seed: u64, nprogs: u64, thorough: bool, out: &Sink) {
                 format!("amend~{}~7", xi),
                 "read~list".to_string(),
                 format!("add~{}", show_order(&mk_order(5, pool_id(51), price, 3, 2, 0, None, false, Side::Sell, 4, g))),
+                format!("mv.price~{}~{}", xi, price + 1),
+                format!("same.replace~{}~2~{}", xi, show_side(Side::Buy)),
             ];
             for a in &op0s { for b in &op1s { programs.push((ix, with_y, a.clone(), b.clone())); } }
         }
